@@ -208,9 +208,10 @@ class Sim:
 
     # ------------------------------------------------------------------ peer values (pure functions of request data)
     def rc_value(self, key, evaluatable_data, context=None):
-        token = (evaluatable_data.body.get("hints") or {}).get("0") if isinstance(evaluatable_data.body, dict) else None
+        body = evaluatable_data.body
+        token = body.get("id") if hasattr(body, "get") else None  # (any mapping: dict, MappingProxyType, ...)
         if token is not None:
-            self.data_seen.add(token)
+            self.data_seen.add(str(token))
         scope = getattr(context, "scope", None)
         if scope in ("FULFILLED", "UNFULFILLED", "UNKNOWN"):
             return ConditionFulfilledValue(scope)  # an evaluation context handed in by the caller decides
@@ -274,17 +275,27 @@ def _make_rc_evaluator(sim, keys, sync_keys, index=0):
 
     # every call gets a default context of its own (that is what the base class asks this method for)
     namespace = {"_get_default_context": lambda self: EvaluationContext(scope=None)}
+    def make_sync(_key):
+        def method(self, evaluatable_data, context):  # pylint:disable=unused-argument
+            sim.check_peer_set(index, "rc", _key)
+            sim.touch("rc", _key)
+            return sim.rc_value(_key, evaluatable_data, context)
+
+        return method
+
+    def make_async(_key):
+        async def method(self, evaluatable_data, context):  # pylint:disable=unused-argument
+            return await evaluate(_key, evaluatable_data, context)
+
+        return method
+
     for key in keys:
-        if key in sync_keys:
+        namespace[f"evaluate_{key}"] = make_sync(key) if key in sync_keys else make_async(key)
 
-            def method(self, evaluatable_data, context, _key=key):  # pylint:disable=unused-argument
-                sim.check_peer_set(index, "rc", _key)
-                sim.touch("rc", _key)
-                return sim.rc_value(_key, evaluatable_data, context)
+    if True:  # (the body of the asynchronous method, shared by all keys)
+        if True:
 
-        else:
-
-            async def method(self, evaluatable_data, context, _key=key):  # pylint:disable=unused-argument
+            async def evaluate(_key, evaluatable_data, context):
                 sim.check_peer_set(index, "rc", _key)
                 token = None
                 if context is not None and context.scope not in ("FULFILLED", "UNFULFILLED", "UNKNOWN"):
@@ -308,28 +319,30 @@ def _make_rc_evaluator(sim, keys, sync_keys, index=0):
                     context.scope = None
                 return value
 
-        namespace[f"evaluate_{key}"] = method
     return type("SimRcEvaluator", (RcEvaluator,), namespace)()
 
 
 def _make_fc_evaluator(sim, keys, sync_keys, index=0):
     namespace = {}
+
+    def make_sync(_key):
+        def method(self, entered_input):
+            sim.check_peer_set(index, "fc", _key)
+            sim.touch("fc", _key)
+            return sim.fc_value(_key, entered_input)
+
+        return method
+
+    def make_async(_key):
+        async def method(self, entered_input):
+            sim.check_peer_set(index, "fc", _key)
+            await sim.pause("fc", _key)
+            return sim.fc_value(_key, entered_input)
+
+        return method
+
     for key in keys:
-        if key in sync_keys:
-
-            def method(self, entered_input, _key=key):
-                sim.check_peer_set(index, "fc", _key)
-                sim.touch("fc", _key)
-                return sim.fc_value(_key, entered_input)
-
-        else:
-
-            async def method(self, entered_input, _key=key):
-                sim.check_peer_set(index, "fc", _key)
-                await sim.pause("fc", _key)
-                return sim.fc_value(_key, entered_input)
-
-        namespace[f"evaluate_{key}"] = method
+        namespace[f"evaluate_{key}"] = make_sync(key) if key in sync_keys else make_async(key)
     return type("SimFcEvaluator", (FcEvaluator,), namespace)()
 
 
